@@ -127,7 +127,6 @@ pub assume_specification[ char::from_digit ](num: u32, radix: u32) -> (r: Option
 pub assume_specification[ char::to_digit ](c: char, radix: u32) -> (r: Option<u32>)
     requires radix <= 36,
     ensures r == (if is_digit(c, radix as int) { Some(digit_val(c)->Some_0 as u32) } else { None::<u32> });
-pub assume_specification<T>[ <[T]>::reverse ](s: &mut [T]) ensures final(s)@ == old(s)@.reverse();
 // stands for `v.into_iter().collect::<String>()` (vstd has no FromIterator<char> specification for String)
 #[verifier::external_body]
 pub fn string_of_chars(v: Vec<char>) -> (s: String) ensures s@ == v@ { v.into_iter().collect::<String>() }
